@@ -30,6 +30,8 @@ PRE = ("absent", "exists", "missingdir")
 PRE_MORE = ("exists_binary", "exists_same", "exists_same_crlf")  # particular contents of a pre-existing target
 STUBS = ("ok", "html_res", "raise_before", "raise_after", "list", "none", "str", "missing_path", "default") + F.REAL_MODES
 DOCS = ("table", "paged", "figure")
+# converter behaviours that ARE a failed conversion: the export must raise
+MUST_RAISE = ("raise_before", "raise_after", "real_fail", "real_failafter", "real_nooutput", "missing_path")
 
 
 def make_doc_factory(kind):
@@ -149,6 +151,9 @@ def judge(r, method, stub_mode, pre):
         if [p for p in changed if p != tgt] or removed:
             out.append(("other-files-touched-on-failure", f"changed={changed} removed={removed}"))
     else:
+        if stub_mode in MUST_RAISE:
+            out.append(("failed-conversion-not-raised", f"the converter failed ({stub_mode}) but the export returned normally; the target now holds {str(after.get(tgt))[:40]!r}"))
+            return out
         if method == "rtf":
             want = r["captured"][-1].encode("utf-8") if r["captured"] else None
             if len(r["captured"]) != 1:
